@@ -11,7 +11,7 @@ cd $wt || exit 2
 cp patch.diff $out/patch.diff; cp zz_demo_test.go $out/zz_demo_test.go 2>/dev/null; cp meta.json $out/agent_meta.json 2>/dev/null
 echo "--- demo with change:"; go test -vet=off -count=1 -run "$demo\$" . 2>&1 | tail -3 > $out/demo_with_change.txt; tail -2 $out/demo_with_change.txt
 echo "--- suite with change:"; go test -vet=off -count=1 -run . -skip "$demo" ./... 2>&1 | tail -2 | tee $out/suite_with_change.txt
-git stash -q; echo "--- demo without change:"; go test -vet=off -count=1 -run "$demo\$" . 2>&1 | tail -2 | tee $out/demo_without_change.txt; git stash pop -q
+git apply -R patch.diff; echo "--- demo without change:"; go test -vet=off -count=1 -run "$demo\$" . 2>&1 | tail -2 | tee $out/demo_without_change.txt; git apply patch.diff
 cd /repo && git apply $out/patch.diff || { echo "PATCH DOES NOT APPLY"; exit 3; }
 go build ./... || { git checkout -- .; exit 4; }
 cd /verif
